@@ -257,6 +257,9 @@ pub struct Spec1<T> {
     /// construct with `new_unchecked` instead of the builder (valid inputs, explicit axis,
     /// strategies that are their own finished strategy only)
     pub ctor_unchecked: bool,
+    /// all lanes are equal and (with view storage) the data is handed over as a broadcast view of
+    /// lane 0: zero strides on the lane axes
+    pub broadcast_lanes: bool,
 }
 
 impl<T: Flt> Spec1<T> {
@@ -272,6 +275,7 @@ impl<T: Flt> Spec1<T> {
             bounds_lay: None,
             sto: StoCombo::OO,
             ctor_unchecked: false,
+            broadcast_lanes: false,
         }
     }
     pub fn dynamic(mut self, d: bool) -> Self {
@@ -318,6 +322,8 @@ pub struct Spec2<T> {
     pub alias_table: Option<Array1<T>>,
     /// construct with `new_unchecked` instead of the builder (valid inputs, explicit axes)
     pub ctor_unchecked: bool,
+    /// all lanes equal; with view storage the data is a broadcast view of lane 0
+    pub broadcast_lanes: bool,
 }
 
 impl<T: Flt> Spec2<T> {
@@ -335,6 +341,7 @@ impl<T: Flt> Spec2<T> {
             sto: StoCombo::OO,
             alias_table: None,
             ctor_unchecked: false,
+            broadcast_lanes: false,
         }
     }
     pub fn dynamic(mut self, d: bool) -> Self {
